@@ -1,0 +1,37 @@
+// Copyright 2026 The Go Authors. All rights reserved.
+// Use of this source code is governed by a BSD-style
+// license that can be found in the LICENSE file.
+
+//go:build verif
+
+package autocert
+
+import (
+	mathrand "math/rand"
+	"time"
+)
+
+// This file is compiled only with the build tag "verif". It gives the
+// deterministic-simulation checks access to the renewal scheduler; it adds
+// nothing to normal builds.
+
+// VerifSeedJitter replaces the package-level jitter source, which is seeded
+// from the wall clock at init, with a fresh one seeded deterministically. The
+// whole value is replaced (not re-seeded under its lock) so that a simulation
+// run starts from a clean state even if an earlier run in the same process
+// panicked while holding the lock. It must not be called concurrently with a
+// running Manager.
+func VerifSeedJitter(seed int64) {
+	pseudoRand = &lockedMathRand{rnd: mathrand.New(mathrand.NewSource(seed))}
+}
+
+// VerifRenewalNext returns what domainRenewal.next computes for a Manager
+// with the given RenewBefore, a certificate valid from notBefore to notAfter
+// and the current time now.
+func VerifRenewalNext(renewBefore time.Duration, notBefore, notAfter, now time.Time) time.Duration {
+	dr := &domainRenewal{m: &Manager{
+		RenewBefore: renewBefore,
+		nowFunc:     func() time.Time { return now },
+	}}
+	return dr.next(notBefore, notAfter)
+}
